@@ -4,6 +4,7 @@
   `handlerResp` to exactly the identifier `Routes.dispatch` returns (once, by construction) and to no other.
 -/
 import MicroHttp.Router
+import MicroHttp.Proofs.RouterLemmas
 namespace MicroHttp.C17
 open MicroHttp
 
@@ -16,7 +17,9 @@ def registerAll (r : Routes) (regs : List Reg) : Routes :=
 /-- The lookup key determines method and path (method names contain no ':'). -/
 theorem routeKey_injective (m m' : Method) (pre path path' : List Byte)
     (h : routeKey m pre path = routeKey m' pre path') : m = m' ∧ path = path' := by
-  sorry
+  have h' := (RouterLemmas.routeKey_eq_iff m m' pre path (pre ++ path')).1
+    (by simpa [routeKey, List.append_assoc] using h)
+  exact ⟨h'.1, List.append_cancel_left h'.2⟩
 
 /-- After any sequence of registrations (duplicates included) on a new router, a request is
     dispatched to the FIRST handler registered for (request method, prefix ++ path = absolute path of
@@ -24,13 +27,13 @@ theorem routeKey_injective (m m' : Method) (pre path path' : List Byte)
 theorem dispatch_first_registered (sid pre : List Byte) (regs : List Reg) (req : Request) :
     (registerAll { serverId := sid, prefix_ := pre } regs).dispatch req =
       (regs.find? (fun reg => reg.1 = req.line.method ∧ pre ++ reg.2.1 = getAbsPath req.line.uri)).map (·.2.2) := by
-  sorry
+  exact RouterLemmas.dispatch_registerAll sid pre regs req
 
 /-- Registering an occupied (method, path) is refused with the key and changes nothing. -/
 theorem addRoute_duplicate (r : Routes) (m : Method) (p : List Byte) (h h' : Nat)
     (hocc : lookupRoute r.routes (routeKey m r.prefix_ p) = some h) :
     r.addRoute m p h' = (r, .error (routeKey m r.prefix_ p)) := by
-  sorry
+  exact RouterLemmas.addRoute_some r m p h' h hocc
 
 /-- Registering a free (method, path) succeeds and makes exactly that key resolve to the handler. -/
 theorem addRoute_fresh (r : Routes) (m : Method) (p : List Byte) (h : Nat)
@@ -38,7 +41,14 @@ theorem addRoute_fresh (r : Routes) (m : Method) (p : List Byte) (h : Nat)
     (r.addRoute m p h).2 = .ok () ∧
     lookupRoute (r.addRoute m p h).1.routes (routeKey m r.prefix_ p) = some h ∧
     ∀ k, k ≠ routeKey m r.prefix_ p → lookupRoute (r.addRoute m p h).1.routes k = lookupRoute r.routes k := by
-  sorry
+  refine ⟨?_, ?_, ?_⟩
+  · rw [RouterLemmas.addRoute_none r m p h hfree]
+  · rw [RouterLemmas.addRoute_lookup, hfree]; simp
+  · intro k hk
+    rw [RouterLemmas.addRoute_lookup]
+    cases lookupRoute r.routes k with
+    | some x => rfl
+    | none => simp [Ne.symm hk]
 
 /-- The response is the dispatched handler's (or a 404 with HTTP/1.1 when there is none), stamped
     with the configured server identity and the JSON content type; nothing else is changed. -/
@@ -47,7 +57,7 @@ theorem handle_spec (r : Routes) (req : Request) (f : Nat → Response) :
       { (match r.dispatch req with
          | some h => f h
          | none => Response.new .http11 .notFound) with server := r.serverId, contentType := .applicationJson } := by
-  sorry
+  rfl
 
 example : (registerAll { serverId := [], prefix_ := [0x2F, 0x70] }
       [(.get, [0x2F, 0x61], 0), (.put, [0x2F, 0x61], 1), (.get, [0x2F, 0x61], 2)]).dispatch
